@@ -1905,7 +1905,7 @@ class Ev:
             elif isinstance(x, ModRef):
                 # an outside class: decided by the declared outside types of the object; typing aliases: List / Tuple / ...
                 n = x.name.split(".")[-1]
-                if isinstance(v, Obj) and hasattr(v, "ext_types"):
+                if hasattr(v, "ext_types"):
                     if n in v.ext_types:
                         return True
                     continue
@@ -2258,6 +2258,8 @@ class Ev:
                 if not recv.items:
                     raise _Raise(e, "pop from an empty set", "KeyError")
                 return recv.items.pop()
+        if isinstance(recv, ListV) and "ndarray" in getattr(recv, "ext_types", ()) and name == "tolist" and not args:
+            return ListV(list(recv.items))
         if isinstance(recv, ListV) and not isinstance(recv, TupV) and not isinstance(recv, SetV):
             if name == "append":
                 recv.items.append(args[0])
@@ -2362,6 +2364,15 @@ class Ev:
             if isinstance(v, ListV):
                 return type(v)(v.items[lo:hi])
             raise AnalysisError("slicing %r" % (v,))
+        if isinstance(sl, ast.Tuple) and isinstance(v, ListV) and "ndarray" in getattr(v, "ext_types", ()):
+            # numpy column of a 2-d array: a[:, k]
+            if len(sl.elts) == 2 and isinstance(sl.elts[0], ast.Slice) and not any((sl.elts[0].lower, sl.elts[0].upper, sl.elts[0].step)):
+                k = self.ev(sl.elts[1], env, mod)
+                if isinstance(k, int) and all(isinstance(r, ListV) for r in v.items):
+                    out = ListV([r.items[k] for r in v.items])
+                    out.ext_types = {"ndarray"}
+                    return out
+            raise AnalysisError("array subscript at line %d is not modelled" % node.lineno)
         k = self.ev(sl, env, mod)
         if isinstance(v, Str):
             r = str_index(v, k)
